@@ -18,6 +18,8 @@ CONFIGS_T = CONFIGS_Q + [
     ("3g3b", 3, 3, [("g1", 1), ("g2", 2), ("g3", 3)], 1),
     ("2g2b_p2", 4, 2, [("g1", 2), ("g2", 1)], 2),
     ("3g1b_same", 2, 1, [("g1", 1), ("g2", 1), ("g3", 1)], 1),
+    ("3g3b_p2", 6, 3, [("g1", 3), ("g2", 1), ("g3", 2)], 2),
+    ("4g2b", 4, 2, [("g1", 1), ("g2", 2), ("g3", 1), ("g4", 2)], 1),
 ]
 
 
@@ -34,7 +36,7 @@ def _one_config(job):
         progs, names = cropfs.record_programs(setup, writers)
         out["programs"] = {w: [list(op) for op in ops] for w, ops in progs.items()}
         consts = cropfs.model_constants(progs, writers, setup.nb, npolls, max_sleeps=2)
-        nsim = (150 if tier == "quick" else 1500)
+        nsim = (150 if tier == "quick" else 4000)
         found = False
         for inv in ("ReaperNeverSeesPartial", "PollerNeverCountsPartial", "ReaperExact"):
             r = cropfs.run_model("MC_C11_%s_%s" % (label, inv[:8]), consts, invariants=["TypeOK", inv], coverage=(inv == "ReaperExact"),
